@@ -52,8 +52,18 @@ type Step struct {
 	Kind string  `json:"kind"` // tx | commit | crash | export_import | restart
 	DT   int64   `json:"dt,omitempty"`
 	Tx   *TxStep `json:"tx,omitempty"`
+	// Queries (kind "queries") are served against committed state.
+	Queries []QueryStep `json:"queries,omitempty"`
 	// Walks (kind "walks") replaces the paging walks used by the listing oracles, then commits.
 	Walks []PageReq `json:"walks,omitempty"`
+}
+
+// QueryStep is one ABCI query as pure data.
+type QueryStep struct {
+	Path   string `json:"path"`
+	Data   string `json:"data_b64"`
+	Height int64  `json:"height,omitempty"`
+	Raw    bool   `json:"raw,omitempty"`
 }
 
 // Violation is an oracle failure.
@@ -297,6 +307,8 @@ func (w *World) Apply(s Step) error {
 	case "walks":
 		w.Walks = s.Walks
 		return w.applyCommit(3)
+	case "queries":
+		return w.applyQueries(s.Queries)
 	}
 	return fmt.Errorf("unknown step kind %q", s.Kind)
 }
@@ -373,10 +385,17 @@ func (w *World) applyTx(ts *TxStep) error {
 		}
 	}
 	obs.AntePassed = inc
+	if strings.Contains(ts.Note, "[hostile]") {
+		w.Label("c17 hostile tx delivered")
+	}
 	if simnet.IsPanic(obs.Res.Codespace, obs.Res.Code) {
 		w.Label("tx recovered panic")
 		if w.On("C17") {
-			return &Violation{"C17", "DeliverTx recovered a panic: " + obs.Res.Log}
+			if k := w.knownTxPanic(obs); k != "" {
+				w.Excluded[k]++
+			} else {
+				return &Violation{"C17", "DeliverTx recovered a panic: " + obs.Res.Log}
+			}
 		}
 	}
 	// outcome classification
